@@ -54,6 +54,9 @@ def build_branch(name, d, how, base, rnd):
     pre = rnd.choice([0, 2, 4, 6, 10, 64, 300, 600])
     if pre:
         stmts.append(apm.blk(".blkb", apm.num(pre)))
+    if rnd.random() < 0.25:
+        # the branch itself at an odd address: what decides is the DISTANCE, not the parity of either end
+        stmts.append(apm.data(".byte", apm.num(0o252)))
     stmts.append(apm.label("anchor"))
     ops = [("reg", rnd.randrange(8))] if name == "sob" else []
 
@@ -211,6 +214,11 @@ def gen_relative_program(rnd, base):
                 st = apm.insn("mul", ("rel", t1), ("reg", 2)); tag = f"pos0|ext0|{t1s}"
             else:
                 st = apm.insn("mov", ("abs", apm.num(rnd.randrange(0x10000))), ("rel", t1)); tag = f"pos1|ext1abs|{t1s}"
+            if rnd.random() < 0.15 and "local" not in (t1s, t2s):
+                # copies of the statement: each one is at its own address, so each displacement differs
+                body = [st] + ([apm.data(".word", apm.num(rnd.randrange(0x10000)))] if rnd.random() < 0.5 else [])
+                st = apm.repeat(apm.num(rnd.choice([2, 3, 5])), body)
+                tag += "|repeated"
             out.append(st)
             tags.append(tag)
             continue
@@ -266,6 +274,9 @@ def gen_include_program(rnd, base):
                 out.append(apm.insn("jmp", ("reld", e))); tags.append(f"{where}|pos0d|ext0|{sh}")
             else:
                 out.append(apm.data(".word", ("sym", rnd.choice(names))))
+            if rnd.random() < 0.15 and out[-1].k == "insn":
+                out[-1] = apm.repeat(apm.num(rnd.choice([2, 3, 4])), [out[-1]] + ([apm.insn("nop")] if rnd.random() < 0.5 else []))
+                tags[-1] += "|repeated"
         return out
 
     outer = ["ga", "gb", "gc"]
@@ -342,6 +353,7 @@ def run_case(case, cnt=None):
     def viol(what):
         out.append({"what": what, "case": case})
 
+    apm.ODD_INSN_OK = True
     prog = apm.from_json(case["prog"])
     if case["kind"] == "inc":
         import os
